@@ -122,6 +122,18 @@ pub fn run(ctx: &Ctx) -> i32 {
         Part { name: "ES-M multi-run inputs x small single lists x restricted mode sets", family: gen::es_i(ctx.tier.pick(14, 24), ctx.tier.pick(4, 6)), cfgs: gen::cfgs(&[common::NO_ASCII, 0x02, 0x04, 0x08, 0x10, 0x20], &[sq(12, 12), sq(14, 14), sq(16, 16), sq(18, 18), sq(8, 32)], &on, &off) },
         Part { name: "ES-I multi-run inputs", family: gen::es_i(ctx.tier.pick(14, 24), ctx.tier.pick(5, 7)), cfgs: gen::cfgs(&[ALL_MODES, common::NO_ASCII, 0x12, 0x14, 0x18, 0x06, 0x30], &[d], &on, &off) },
     ];
+    // the structured long-input families of the encode-side sweep (DESIGN 10.3b)
+    for (name, family) in [
+        ("ES-T long run across 255/256 and 511/512 + short tail", gen::es_t()),
+        ("ES-Q Base256 run ending at a symbol capacity + tail", gen::es_q()),
+        ("ES-R mixed inputs whose single Base256 field fills a capacity", gen::es_r()),
+        ("ES-J2 long runs + EDIFACT middle + suffix", gen::es_j2()),
+        ("ES-P run + island + run + foreign tail", gen::es_p()),
+        ("ES-U every byte value + EDIFACT run + foreign tail", gen::es_u()),
+        ("ES-V run of one class + EDIFACT groups + foreign tail", gen::es_v()),
+    ] {
+        parts.push(Part { name, family, cfgs: gen::cfgs(&[ALL_MODES, common::NO_ASCII], &[d], &on, &off) });
+    }
     let _ = Flavor::Totality;
     // one- and two-symbol lists on a core set of strings
     let mut lists: Vec<ListMask> = (0..48).map(ListMask::single).collect();
